@@ -144,6 +144,8 @@ func (r *Run) runHistory(idx int, next func(p *Pool, step int) (Op, bool), onTai
 			ex = expect(p, o)
 			before = snapshot(p)
 			r.fallible++
+		} else if po, isP := plainOps[o.Name]; isP && po.frame {
+			before = snapshot(p)
 		}
 		shared := sharedFollower(p, o)
 		c01pre := c01Before(p, o)
@@ -251,6 +253,12 @@ func (r *Run) runHistory(idx int, next func(p *Pool, step int) (Op, bool), onTai
 				failOn("c06", kind+st, st+" "+v)
 			}
 		}
+		if po, isP := plainOps[o.Name]; isP && po.frame && out.Err == nil {
+			// a plain setter may only change its own receiver
+			if d := frameBroken(before, snapshot(p), o.A[0]); d != "" {
+				failOn("c06", "c06-setter-frame@"+st, st+" changed something else than its receiver: "+d)
+			}
+		}
 		line := o.String()
 		if f, okf := fitsOracle(o, cause); okf {
 			line += " " + strconv.FormatInt(f, 10)
@@ -274,6 +282,10 @@ func (r *Run) runHistory(idx int, next func(p *Pool, step int) (Op, bool), onTai
 			c01class = "ok"
 		} else if cause == "Layout" {
 			c01class = "layout"
+		} else if o.Name == "MsgUpdateSize" && cause == "TooSmall" {
+			c01class = "toosmall"
+		} else if o.Name == "MsgUpdateSize" && cause == "TooBig" {
+			c01class = "toobig"
 		}
 		for _, l := range c01Lines(p, o, c01pre, c01class, nBefore) {
 			fmt.Fprintf(r.trace, "C %s\n", l)
